@@ -189,6 +189,14 @@ func runRenew(ctx *action.Context, tx action.RawTx) (bool, action.Response) {
 		}
 	}
 
+	// the extended expiry height must be a height
+	_, err = extendHeight(domain.ExpireHeight, extend)
+	if err != nil {
+		return false, action.Response{
+			Log: err.Error(),
+		}
+	}
+
 	// increase the expiry height & save domain
 	domain.AddToExpire(extend)
 	domain.SetLastUpdatedHeight(ctx.Header.Height)
